@@ -114,6 +114,9 @@ pub struct ExecState {
     /// the payload's Clone impl yields a copy WITHOUT the stored handles (a value type
     /// whose clone starts empty) instead of cloning every stored handle
     pub shallow_clone: bool,
+    pub clone_releases: bool,
+    /// program handles borrowed by the call in progress (user code run by that call cannot use them)
+    pub pinned: Vec<Id>,
 }
 
 impl Default for ExecState {
@@ -122,7 +125,7 @@ impl Default for ExecState {
             depth: 0, dtor_counter: 0, faults: Faults::default(), fired_panics: 0, fired_scripts: 0, panic_in_call: false, any_panic: false,
             pending_clone: None, clone_done: None, c14: None, record_dtors: false, dtors: vec![], call_digests: vec![], order_digest: 0,
             call_start_log: 0, c16_markers: false, collected_group_with_outside_survivor: false, nested_destroy_in_script: 0, nontrivial: 0,
-            shape_hash: 0, dtor_downgrade_p: 0, dtor_rng: crate::gen::Rng(0), dtor_auto: 0, inline_record: vec![], call_start_alive: 0, call_start_traces: 0, call_start_visits: 0, clone_counter: 0, not_fully_recorded: false, shallow_clone: false,
+            shape_hash: 0, dtor_downgrade_p: 0, dtor_rng: crate::gen::Rng(0), dtor_auto: 0, inline_record: vec![], call_start_alive: 0, call_start_traces: 0, call_start_visits: 0, clone_counter: 0, not_fully_recorded: false, shallow_clone: false, clone_releases: false, pinned: vec![],
         }
     }
 }
@@ -170,7 +173,7 @@ fn on_stale_access() {
 
 /// Reset everything for a new execution. Leftovers of the previous execution are
 /// forgotten, never dropped (their heap is gone with the arena reset).
-pub fn reset(faults: Faults, want_snaps: bool, record_dtors: bool, c16_markers: bool, dtor_downgrade_p: u32, dtor_seed: u64, shallow_clone: bool) {
+pub fn reset(faults: Faults, want_snaps: bool, record_dtors: bool, c16_markers: bool, dtor_downgrade_p: u32, dtor_seed: u64, clone_mode: u32) {
     har(|| {
         let old = W.with(|w| std::mem::take(&mut *w.borrow_mut()));
         std::mem::forget(old);
@@ -179,7 +182,7 @@ pub fn reset(faults: Faults, want_snaps: bool, record_dtors: bool, c16_markers: 
             drop(old);
         });
         X.with(|x| {
-            *x.borrow_mut() = ExecState { faults, record_dtors, c16_markers, order_digest: 0xcbf29ce484222325, dtor_downgrade_p, dtor_rng: crate::gen::Rng(dtor_seed), shallow_clone, ..ExecState::default() };
+            *x.borrow_mut() = ExecState { faults, record_dtors, c16_markers, order_digest: 0xcbf29ce484222325, dtor_downgrade_p, dtor_rng: crate::gen::Rng(dtor_seed), shallow_clone: clone_mode & 1 != 0, clone_releases: clone_mode & 2 != 0, ..ExecState::default() };
         });
     });
     verif::reset();
@@ -609,6 +612,18 @@ impl Clone for Node {
                     wid
                 });
                 n.weaks.borrow_mut().push(WSlot { id: wid, target: ws.target, epoch: ws.epoch, w: c });
+            }
+            // a Clone impl with a side effect: it releases every other handle the program
+            // holds to the object being cloned (a registry that detaches on copy), so the
+            // handle make_mut is about to give up may have become the last outside one
+            if x(|x| x.clone_releases) {
+                let others: Vec<Id> = m(|m| m.ph.iter().filter(|&(_, &o)| o == src).map(|(&h, _)| h).collect());
+                for h2 in others {
+                    if w(|w| w.hs.contains_key(&h2)) && !x(|x| x.pinned.contains(&h2)) {
+                        st(St::f_clone_impl_releases_handle, 1);
+                        exec(&Op::Drop { h: h2 }, None);
+                    }
+                }
             }
             // From here on the library owns a new allocation holding `n`, and it is
             // about to release the old handle `h`.
@@ -1288,6 +1303,17 @@ fn exec_inner(op: &Op, dying: Option<&Node>) -> bool {
                 Some((pos, o.slots.borrow_mut().remove(pos)))
             });
             let Some((pos, mut sl)) = taken else { return false };
+            // `owner` is borrowed by this call until it returns
+            struct Unpin;
+            impl Drop for Unpin {
+                fn drop(&mut self) {
+                    x(|x| {
+                        x.pinned.pop();
+                    });
+                }
+            }
+            x(|x| x.pinned.push(owner));
+            let _unpin = Unpin;
             let t = sl.target;
             let (n, nw, epoch, old_addr) = m(|m| {
                 let ob = m.obj(t);
@@ -1632,7 +1658,9 @@ pub fn top_level(op: &Op) -> bool {
                     "non-string panic payload".to_string()
                 };
                 let loc = crate::last_panic_location();
-                if loc.contains("/verif/sim/") {
+                // the library is a path dependency (absolute file names); the simulator's own
+                // files are reported relative to its crate root
+                if loc.contains("/verif/sim/") || loc.contains("/sim/src/") || !loc.starts_with('/') {
                     report::harness_error(&format!("harness panic at {loc}: {msg}"));
                 }
                 violation("internal-panic", "panic-escaped-from-library", &format!("a panic escaped from the library at {loc}: {msg}"));
